@@ -26,6 +26,7 @@ at the top-level directory.
  * Purpose:		Sparse BLAS 2, using some dense BLAS 2 operations.
  */
 
+#include <ctype.h>
 #include "slu_zdefs.h"
 
 /*! \brief Solves one of the systems of equations A*x = b,   or   A'*x = b
@@ -103,6 +104,13 @@ sp_ztrsv(char *uplo, char *trans, char *diag, SuperMatrix *L,
     int_t luptr, istart, i, k, iptr;
     doublecomplex *work;
     flops_t solve_ops;
+    char uplo_uc[2], trans_uc[2], diag_uc[2];
+
+    /* The flags may be given in either case ('U' or 'u', ...). */
+    uplo_uc[0]  = (char) toupper((unsigned char) *uplo);  uplo_uc[1]  = '\0';
+    trans_uc[0] = (char) toupper((unsigned char) *trans); trans_uc[1] = '\0';
+    diag_uc[0]  = (char) toupper((unsigned char) *diag);  diag_uc[1]  = '\0';
+    uplo = uplo_uc; trans = trans_uc; diag = diag_uc;
 
     /* Test the input parameters */
     *info = 0;
@@ -474,6 +482,11 @@ sp_zgemv(char *trans, doublecomplex alpha, SuperMatrix *A, doublecomplex *x,
     int notran;
     doublecomplex comp_zero = {0.0, 0.0};
     doublecomplex comp_one = {1.0, 0.0};
+    char trans_uc[2];
+
+    /* TRANS may be given in either case ('N' or 'n', ...). */
+    trans_uc[0] = (char) toupper((unsigned char) *trans); trans_uc[1] = '\0';
+    trans = trans_uc;
 
     notran = ( strncmp(trans, "N", 1)==0 || strncmp(trans, "n", 1)==0 );
     Astore = A->Store;
